@@ -45,6 +45,8 @@ structure Th where
   /-- ghost: the errnos of the interrupts that reached this thread since its current sleep or
       yield began (reset by the `sleep` / `yield` events) -/
   intrSince : List Int := []
+  /-- ghost: did this thread's latest semaphore subtraction (inside the current call) succeed -/
+  subOk : Bool := false
   deriving Repr, Inhabited
 
 structure Mutex where
@@ -72,6 +74,9 @@ structure St where
   deferred : Option (Nat × Nat) := none
   /-- `MUTEX_UNLOCK` named this head waiter; its wake-up must be the next event -/
   handoff : Option Nat := none
+  /-- registered semaphores with their in-order-resume flag, and registered mutexes -/
+  semIds : List (Nat × Bool) := []
+  mutexIds : List Nat := []
 
 inductive Ev where
   | create (t : Nat)
@@ -99,7 +104,8 @@ inductive Ev where
   | semSub (s n : Nat) (ok : Bool) (by_ : Nat)
   | semResume (s demand t : Nat)
   | semPass (s cnt : Nat)
-  | semInit (s count : Nat)
+  | semInit (s count : Nat) (inorder : Bool)
+  | mutexInit (m : Nat)
   | tick (now : Nat)
   | quiescent
   | setShutdown (t : Nat)
@@ -140,7 +146,7 @@ def effSetShutdown (s : St) (t : Nat) : St := setTh s t { s.th t with shutdown :
 def preCall (s : St) (t : Nat) : Option String :=
   if (s.th t).st ≠ .run then some "call by a thread that is not running" else none
 def effCall (s : St) (t : Nat) (op : Op) : St :=
-  setTh s t { s.th t with op := op, callAt := s.now, shutAtCall := (s.th t).shutdown }
+  setTh s t { s.th t with op := op, callAt := s.now, shutAtCall := (s.th t).shutdown, subOk := false }
 
 -- `prepare_usleep`
 /-- the deadline is never earlier than what the API call asked for (shutdown caps it at 10 ms) -/
@@ -288,7 +294,9 @@ def preCallUnlock (s : St) (t m : Nat) : Option String :=
   if (s.mutex m).owner ≠ some t then some "program error: unlock by a non-owner" else none
 
 -- semaphore
-def effSemInit (s : St) (sm c : Nat) : St := { s with sem := upd s.sem sm { count := c, initial := c } }
+def effSemInit (s : St) (sm c : Nat) (inorder : Bool) : St :=
+  { s with sem := upd s.sem sm { count := c, initial := c }, semIds := s.semIds ++ [(sm, inorder)] }
+def effMutexInit (s : St) (m : Nat) : St := { s with mutexIds := s.mutexIds ++ [m] }
 def preSemAdd (s : St) (sm n cnt : Nat) : Option String :=
   if cnt ≠ (s.sem sm).count + n then some "semaphore: count after signal differs from the model" else none
 def effSemAdd (s : St) (sm n cnt : Nat) : St :=
@@ -296,9 +304,10 @@ def effSemAdd (s : St) (sm n cnt : Nat) : St :=
   { s with sem := upd s.sem sm { x with count := cnt, signalled := x.signalled + n } }
 def preSemSub (s : St) (sm n : Nat) (ok : Bool) : Option String :=
   if ok ≠ decide (n ≤ (s.sem sm).count) then some "semaphore: subtraction outcome differs from the model's count" else none
-def effSemSub (s : St) (sm n : Nat) (ok : Bool) : St :=
+def effSemSub (s : St) (sm n : Nat) (ok : Bool) (by_ : Nat) : St :=
   let x := s.sem sm
-  if ok then { s with sem := upd s.sem sm { x with count := x.count - n, taken := x.taken + n } } else s
+  let s1 := setTh s by_ { s.th by_ with subOk := ok }
+  if ok then { s1 with sem := upd s.sem sm { x with count := x.count - n, taken := x.taken + n } } else s1
 /-- start of `try_resume(cnt)`: the pass may hand out `cnt` tokens -/
 def preSemPass (s : St) (sm cnt : Nat) : Option String :=
   if cnt ≠ (s.sem sm).count then some "semaphore: resume pass started with a count different from the model" else none
@@ -315,6 +324,8 @@ def effSemResume (s : St) (sm demand t : Nat) : St :=
 def preRetSemWait (s : St) (t sm : Nat) (r e : Int) : Option String :=
   let x := s.th t
   if r ≠ 0 ∧ (s.queue sm).contains t then some "semaphore: failed wait left the caller in the queue"
+  else if r = 0 ∧ demandOf x ≠ 0 ∧ x.subOk = false then some "semaphore: wait() returned 0 without taking its tokens"
+  else if r ≠ 0 ∧ x.subOk = true then some "semaphore: failed wait() took tokens"
   else
     let okErr : Bool := match x.op with
       | .semwait _ _ to _ => okDeadline to x.callAt s.now r e
@@ -331,6 +342,23 @@ def preRetCvWait (s : St) (t m : Nat) (r e : Int) : Option String :=
       | _ => true
     if !okErr then some "condition variable: ETIMEDOUT before the deadline" else none
 
+/-- lost wake-ups visible at a quiescence point: a waiter is parked although the object's state
+    already satisfies its wake condition -/
+def stuckMutex (s : St) (m : Nat) : Bool := decide ((s.mutex m).owner = none) && !(s.queue m).isEmpty
+def stuckSem (s : St) (sm : Nat) (inorder : Bool) : Bool :=
+  let c := (s.sem sm).count
+  if inorder then
+    match s.queue sm with
+    | [] => false
+    | h :: _ => decide (demandOf (s.th h) ≤ c)
+  else (s.queue sm).any fun t => decide (demandOf (s.th t) ≤ c)
+def stuckAtQuiescence (s : St) : List String :=
+  (s.mutexIds.filterMap fun m => if stuckMutex s m then some s!"mutex {m} is free but has parked waiters" else none) ++
+  (s.semIds.filterMap fun (sm, inorder) =>
+    if stuckSem s sm inorder then
+      some s!"semaphore {sm}: count {(s.sem sm).count} covers the demand of a parked waiter (head waiter in in-order mode)"
+    else none)
+
 -- time and quiescence
 def preTick (s : St) (n : Nat) : Option String := if n < s.now then some "clock went backwards" else none
 def overdue (s : St) : List Nat :=
@@ -339,6 +367,8 @@ def preQuiescent (s : St) : Option String :=
   -- every sleeper whose deadline has passed must have been woken by the resume pass
   if overdue s ≠ [] then some "a sleeping thread is past its deadline at quiescence"
   else if s.deferred.isSome then some "condition variable: deferred unlock never ran"
+  else if s.mutexIds.any (stuckMutex s) then some "lost wake-up: a free mutex has parked waiters at quiescence"
+  else if s.semIds.any (fun p => stuckSem s p.1 p.2) then some "lost wake-up: the semaphore count covers a parked waiter's demand at quiescence"
   else none
 
 /-- the guard of an event -/
@@ -362,7 +392,8 @@ def pre (s : St) (e : Ev) : Option String :=
   | .retLock t m r e => preRetLock s t m r e
   | .retTryLock t m r => preRetTryLock s t m r
   | .callUnlock t m => preCallUnlock s t m
-  | .semInit _ _ => none
+  | .semInit _ _ _ => none
+  | .mutexInit _ => none
   | .semAdd sm n cnt => preSemAdd s sm n cnt
   | .semSub sm n ok _ => preSemSub s sm n ok
   | .semResume sm d t => preSemResume s sm d t
@@ -395,9 +426,10 @@ def eff (s : St) (e : Ev) : St :=
   | .retLock t _ _ _ => effRet s t
   | .retTryLock t _ _ => effRet s t
   | .callUnlock _ _ => s
-  | .semInit sm c => effSemInit s sm c
+  | .semInit sm c io => effSemInit s sm c io
+  | .mutexInit m => effMutexInit s m
   | .semAdd sm n cnt => effSemAdd s sm n cnt
-  | .semSub sm n ok _ => effSemSub s sm n ok
+  | .semSub sm n ok b => effSemSub s sm n ok b
   | .semResume sm d t => effSemResume s sm d t
   | .semPass sm c => effSemPass s sm c
   | .retSemWait t _ _ _ => effRet s t
@@ -432,21 +464,4 @@ def Reachable (s : St) : Prop := ∃ tr, run {} tr = .ok s
 
 end Photon.Sync
 
-namespace Photon.Sync
 
-/-- lost wake-ups visible at a quiescence point: a waiter is parked although the object's state
-    already satisfies its wake condition. `mutexes`/`sems` list the object ids in use
-    (`sems` with their in-order flag). -/
-def stuckAtQuiescence (s : St) (mutexes : List Nat) (sems : List (Nat × Bool)) : List String :=
-  (mutexes.filterMap fun m =>
-    if (s.mutex m).owner = none ∧ s.queue m ≠ [] then some s!"mutex {m} is free but has parked waiters" else none) ++
-  (sems.filterMap fun (sm, inorder) =>
-    let c := (s.sem sm).count
-    if inorder then
-      match s.queue sm with
-      | [] => none
-      | h :: _ => if demandOf (s.th h) ≤ c then some s!"semaphore {sm}: count {c} covers the head waiter's demand {demandOf (s.th h)} but it is parked" else none
-    else
-      if (s.queue sm).any (fun t => decide (demandOf (s.th t) ≤ c)) then some s!"semaphore {sm}: count {c} covers a parked waiter's demand" else none)
-
-end Photon.Sync
